@@ -1133,6 +1133,9 @@ class Interp:
             import struct
             xs = struct.unpack('<4d', bytes.fromhex(o['bytes'])[:32])
             return St('glam::DVec4', 'DVec4', {n: RF.const(Fraction(x)) for n, x in zip('xyzw', xs)})
+        if o.get('deref_enum') and 'deref_bytes' in o:
+            val = int.from_bytes(bytes.fromhex(o['deref_bytes']), 'little')
+            return Ref(LV(Cell(Sym(nf.sym_atom('const:%s=%d' % (o['deref_ty'], val)), o['deref_ty']), o['deref_ty'], 'promoted')))
         if o.get('zst'):
             return St(ty, None, {})
         if 'enum_bits' in o:
@@ -1180,7 +1183,14 @@ class Interp:
                 return x
             if kind.startswith('FloatToInt'):
                 return nf.fn_app('trunc', x)
-            if kind.startswith('PointerCoercion') or kind in ('PtrToPtr', 'Transmute', 'Subtype', 'FnPtrToPtr'):
+            if kind == 'Transmute':
+                ev = Event()
+                ev.kind, ev.callee, ev.args, ev.fargs, ev.result = 'cast', 'transmute', [x], [frozen(x)], x
+                ev.body, ev.line, ev.guard, ev.depth, ev.term, ev.in_loop = st.body, (s or {}).get('line'), st.guard, len(self.stack), None, self.loop_depth
+                ev.extra = {'to': rv.get('ty'), 'from': rv.get('from_ty')}
+                self.events.append(ev)
+                return x
+            if kind.startswith('PointerCoercion') or kind in ('PtrToPtr', 'Subtype', 'FnPtrToPtr'):
                 return x
             raise AnalysisIncomplete('cast %s' % kind)
         if k == 'aggregate':
